@@ -9,7 +9,7 @@ Correspondence driver for C19. Input: the lines printed by `harness/h3_named.cpp
   / `Named.process`. When the piece structure is given it also checks `render pieces = template`, evaluates the
   class predicates (`wf`, `procOK`, `detectOK`) and re-checks the two theorems' conclusions on that instance; a `CLS`
   line is printed for every template outside one of the good classes.
-* `e2e-init <hexSeparator>`, `san b`, `cache-clear`, `log <id> <vals> <hexT> <san> <fv,…> => msg=… pairs=… hdr=… json=…`,
+* `e2e-init <hexSeparator>`, `san b`, `cache-clear`, `log <id> <vals> <hexT> <san> <thr> <fv,…> => msg=… pairs=… hdr=… json=…`,
   `cache-dump => …` — the real backend + recording sink + `JsonFileSink`; the driver runs `Named.backendStep` with its
   own cache and `Named.jsonLine` with the extracted layout.
 -/
@@ -165,14 +165,14 @@ def run : IO UInt32 := do
       if m != obsS then
         IO.println s!"MISMATCH line={lineNo} cache-dump impl=[{obsS}] model=[{m}]"
         t := { t with mismatches := t.mismatches + 1 }
-    | ["log", id, _vals, hexT, san, fvs] =>
+    | ["log", id, _vals, hexT, san, thr, fvs] =>
       t := { t with lines := t.lines + 1, logs := t.logs + 1 }
       segLogs := segLogs + 1
       let fvOpt : Option (List Str) := if fvs == "-" then some [] else (fvs.splitOn ",").mapM (fun h => (Drv.unhex (h.drop 1).toString).map ofBytes)
       match strOfHex hexT, fvOpt with
       | some tm, some fv =>
         let hit := (cache.lookup tm).isSome
-        let r := backendStep sep (san == "1") cache tm fv
+        let r := backendStep sep (san == "1") (thr == "1") cache tm fv
         cache := r.2
         let named := r.1.pairs.isSome
         if named then
